@@ -1,22 +1,30 @@
 //! C11 — the reader's verdict does not depend on a wrong format hint.
 //!
-//!   c11 dump                         -> JSON {pdf, map:[[fmt,container],…]} (used by the translator)
+//!   c11 dump                         -> JSON {pdf, map:[[fmt,container],…], readers:[[fmt,[types…]],…]}
+//!                                       (used by the translator)
 //!   c11 <tier> <seed> <outdir>       -> correspondence + end-to-end run
 //!
 //! Request lines:
 //!   C11 detect pdf=<0|1> hint=<hex> data=<hex>  -> <detected|-> <family(hint)|-> <hex(resolved format)>
+//!   C11 detectio pdf=<0|1> hint=<hex> data=<hex> script=<c<k>|i|f,…|-> seekfail=<n|->
+//!                                               -> <detected|-> <hex(resolved format)>
+//!       (the stream's successive `read` calls follow the script: short read of ≤k bytes,
+//!        Interrupted, hard error; the n-th `seek` call fails)
+//!   C11 reader f=<hex>                          -> identity of the handler selected for reading | -
 //!   C11 norm s=<hex>                            -> <hex(normalize_format(s))>  (via container lookups)
 
-use std::io::Cursor;
+use std::collections::{BTreeMap, BTreeSet, VecDeque};
+use std::io::{Cursor, Read, Seek, SeekFrom};
 
-use c2pa::{verif_hooks::c11 as hook, Context, Reader};
+use c2pa::{verif_hooks::c11 as hook, Builder, BuilderIntent, Context, EphemeralSigner, Reader};
 use vh::common::{canon_json, fixtures, guarded, hex, main_with, Rng, Run};
 
 fn main() {
     let args: Vec<String> = std::env::args().collect();
     if args.len() >= 2 && args[1] == "dump" {
         let map: Vec<Vec<String>> = hook::container_map().into_iter().map(|(k, v)| vec![k, v]).collect();
-        println!("{}", serde_json::json!({"pdf": hook::pdf_enabled(), "map": map}));
+        let readers: Vec<serde_json::Value> = hook::reader_map().into_iter().map(|(k, t)| serde_json::json!([k, t])).collect();
+        println!("{}", serde_json::json!({"pdf": hook::pdf_enabled(), "map": map, "readers": readers}));
         return;
     }
     main_with("C11", run);
@@ -46,6 +54,14 @@ fn magic_prefixes() -> Vec<Vec<u8>> {
         b"%PDF".to_vec(),
         b"<svg".to_vec(),
         b"\x00\x00\x00\x20jumb".to_vec(),
+        // two signatures at once (offset-0 magic + "ftyp" at offset 4): rule order decides
+        b"RIFFftyp".to_vec(),
+        b"fLaCftyp".to_vec(),
+        b"II\x2a\x00ftyp".to_vec(),
+        b"%PDFftyp".to_vec(),
+        b"ID3\x04ftyp\x00\x00".to_vec(),
+        b"\xff\xd8\xff\xe0ftyp".to_vec(),
+        b"\xff\xfb\x90\x00ftyp".to_vec(),
     ]
 }
 
@@ -105,6 +121,10 @@ fn gen_hint(r: &mut Rng, formats: &[String]) -> String {
         1 => r.pick(&["xyz", "image/unknown", "application/octet-stream", "c2pa", "svg", "txt"]).to_string(),
         _ => r.pick(formats).clone(),
     };
+    vary(r, base)
+}
+
+fn vary(r: &mut Rng, base: String) -> String {
     let mut s = base;
     if r.chance(1, 4) {
         s = s.to_uppercase();
@@ -117,11 +137,102 @@ fn gen_hint(r: &mut Rng, formats: &[String]) -> String {
             .collect();
     }
     if r.chance(1, 5) {
-        let ws = [" ", "\t", "  ", "\n", "\r\n"];
+        let ws = [" ", "\t", "  ", "\n", "\r\n", "\x0b", "\x0c"];
         s = format!("{}{}{}", r.pick(&ws), s, r.pick(&ws));
     }
     s
 }
+
+// ---------------------------------------------------------------------------------------------
+// a stream whose `read`/`seek` calls follow a script (short reads, Interrupted, hard errors)
+
+#[derive(Clone, Copy, Debug)]
+enum Ev {
+    Chunk(usize),
+    Intr,
+    Fail,
+}
+
+struct ScriptStream {
+    inner: Cursor<Vec<u8>>,
+    script: VecDeque<Ev>,
+    seeks: usize,
+    seek_fail: Option<usize>,
+}
+
+impl ScriptStream {
+    fn new(data: &[u8], script: &[Ev], seek_fail: Option<usize>) -> Self {
+        ScriptStream { inner: Cursor::new(data.to_vec()), script: script.iter().copied().collect(), seeks: 0, seek_fail }
+    }
+}
+
+impl Read for ScriptStream {
+    fn read(&mut self, buf: &mut [u8]) -> std::io::Result<usize> {
+        match self.script.pop_front() {
+            None => self.inner.read(buf),
+            Some(Ev::Chunk(k)) => {
+                let m = k.min(buf.len());
+                self.inner.read(&mut buf[..m])
+            }
+            Some(Ev::Intr) => Err(std::io::Error::new(std::io::ErrorKind::Interrupted, "scripted EINTR")),
+            Some(Ev::Fail) => Err(std::io::Error::other("scripted read error")),
+        }
+    }
+}
+
+impl Seek for ScriptStream {
+    fn seek(&mut self, pos: SeekFrom) -> std::io::Result<u64> {
+        let i = self.seeks;
+        self.seeks += 1;
+        if Some(i) == self.seek_fail {
+            return Err(std::io::Error::other("scripted seek error"));
+        }
+        self.inner.seek(pos)
+    }
+}
+
+fn gen_script(r: &mut Rng) -> Vec<Ev> {
+    let n = match r.below(6) {
+        0 => 0,
+        1 => 1,
+        _ => r.below(24) as usize,
+    };
+    // hard errors and premature Ok(0) are rarer so that most scripts reach the magic tests
+    let (p_fail, p_zero) = match r.below(4) {
+        0 => (6, 6),
+        _ => (40, 40),
+    };
+    (0..n)
+        .map(|_| {
+            if r.chance(1, p_fail) {
+                Ev::Fail
+            } else if r.chance(1, p_zero) {
+                Ev::Chunk(0)
+            } else if r.chance(1, 5) {
+                Ev::Intr
+            } else {
+                Ev::Chunk(*r.pick(&[1usize, 1, 1, 2, 3, 4, 5, 7, 9, 15, 16, 32]))
+            }
+        })
+        .collect()
+}
+
+fn script_text(s: &[Ev]) -> String {
+    if s.is_empty() {
+        return "-".to_string();
+    }
+    s.iter()
+        .map(|e| match e {
+            Ev::Chunk(k) => format!("c{k}"),
+            Ev::Intr => "i".to_string(),
+            Ev::Fail => "f".to_string(),
+        })
+        .collect::<Vec<_>>()
+        .join(",")
+}
+
+// ---------------------------------------------------------------------------------------------
+// end-to-end reads
 
 fn report_of(format: &str, data: &[u8]) -> String {
     report_of_mode(format, data, false)
@@ -164,13 +275,192 @@ fn report_of_mode(format: &str, data: &[u8], use_async: bool) -> String {
     }
 }
 
+/// Minimal 4x4 8-bit grayscale baseline TIFF, single strip; classic or BigTIFF, either byte order.
+fn tiny_tiff(big_endian: bool, bigtiff: bool) -> Vec<u8> {
+    let u16b = |v: u16| if big_endian { v.to_be_bytes() } else { v.to_le_bytes() };
+    let u32b = |v: u32| if big_endian { v.to_be_bytes() } else { v.to_le_bytes() };
+    let u64b = |v: u64| if big_endian { v.to_be_bytes() } else { v.to_le_bytes() };
+    const SHORT: u16 = 3;
+    const LONG: u16 = 4;
+    let n = 9usize;
+    let data_off: u32 = if bigtiff { (16 + 8 + n * 20 + 8) as u32 } else { (8 + 2 + n * 12 + 4) as u32 };
+    let entries: [(u16, u16, u32); 9] = [
+        (256, SHORT, 4),
+        (257, SHORT, 4),
+        (258, SHORT, 8),
+        (259, SHORT, 1),
+        (262, SHORT, 1),
+        (273, LONG, data_off),
+        (277, SHORT, 1),
+        (278, SHORT, 4),
+        (279, LONG, 16),
+    ];
+    let mut out = Vec::new();
+    out.extend_from_slice(if big_endian { b"MM" } else { b"II" });
+    if bigtiff {
+        out.extend_from_slice(&u16b(43));
+        out.extend_from_slice(&u16b(8));
+        out.extend_from_slice(&u16b(0));
+        out.extend_from_slice(&u64b(16));
+        out.extend_from_slice(&u64b(n as u64));
+    } else {
+        out.extend_from_slice(&u16b(42));
+        out.extend_from_slice(&u32b(8));
+        out.extend_from_slice(&u16b(n as u16));
+    }
+    for (tag, ty, val) in entries {
+        out.extend_from_slice(&u16b(tag));
+        out.extend_from_slice(&u16b(ty));
+        if bigtiff {
+            out.extend_from_slice(&u64b(1));
+        } else {
+            out.extend_from_slice(&u32b(1));
+        }
+        let mut field = Vec::new();
+        if ty == SHORT {
+            field.extend_from_slice(&u16b(val as u16));
+        } else {
+            field.extend_from_slice(&u32b(val));
+        }
+        field.resize(if bigtiff { 8 } else { 4 }, 0);
+        out.extend_from_slice(&field);
+    }
+    if bigtiff {
+        out.extend_from_slice(&u64b(0));
+    } else {
+        out.extend_from_slice(&u32b(0));
+    }
+    assert_eq!(out.len(), data_off as usize);
+    out.extend((0u8..16).map(|i| i * 16));
+    out
+}
+
+/// Add an update manifest (`BuilderIntent::Update`) on top of a signed asset.
+fn add_update(format: &str, signed: &[u8]) -> c2pa::Result<Vec<u8>> {
+    let signer = EphemeralSigner::new("verif.test")?;
+    let ctx = Context::new().with_signer(signer);
+    let def = serde_json::json!({
+        "title": "verif update", "format": format,
+        "claim_generator_info": [{"name": "verif-harness", "version": "0.1"}],
+        "assertions": [{"label": "c2pa.actions", "data": {"actions": [{"action": "c2pa.edited.metadata"}]}}]
+    })
+    .to_string();
+    let mut b = Builder::from_context(ctx).with_definition(def.as_str())?;
+    b.set_intent(BuilderIntent::Update);
+    let mut out = Cursor::new(Vec::new());
+    b.save_to_stream(format, &mut Cursor::new(signed.to_vec()), &mut out)?;
+    Ok(out.into_inner())
+}
+
+/// Which of the sniffing rules' alternatives the leading bytes of `d` exercise (harness-side
+/// label used only for coverage accounting).
+fn magic_variant(d: &[u8]) -> &'static str {
+    let at = |o: usize, p: &[u8]| d.len() >= o + p.len() && &d[o..o + p.len()] == p;
+    if at(0, &[0xff, 0xd8, 0xff]) {
+        "jpg"
+    } else if at(0, &[0x89, 0x50, 0x4e, 0x47, 0x0d, 0x0a, 0x1a, 0x0a]) {
+        "png"
+    } else if at(0, b"GIF87a") {
+        "gif87a"
+    } else if at(0, b"GIF89a") {
+        "gif89a"
+    } else if at(0, &[0x49, 0x49, 0x2a, 0x00]) {
+        "tiff-le"
+    } else if at(0, &[0x4d, 0x4d, 0x00, 0x2a]) {
+        "tiff-be"
+    } else if at(0, &[0x49, 0x49, 0x2b, 0x00]) {
+        "bigtiff-le"
+    } else if at(0, &[0x4d, 0x4d, 0x00, 0x2b]) {
+        "bigtiff-be"
+    } else if at(0, &[0x00, 0x00, 0x00, 0x0c, 0x4a, 0x58, 0x4c, 0x20]) {
+        "jxl"
+    } else if at(0, b"RIFF") {
+        "riff"
+    } else if at(4, b"ftyp") {
+        "ftyp"
+    } else if at(0, b"fLaC") {
+        "flac"
+    } else if at(0, b"ID3") && d.len() >= 10 {
+        let sz = ((d[6] as usize & 0x7f) << 21) | ((d[7] as usize & 0x7f) << 14) | ((d[8] as usize & 0x7f) << 7) | (d[9] as usize & 0x7f);
+        if at(10 + sz, b"fLaC") {
+            "id3+flac"
+        } else {
+            "id3"
+        }
+    } else if d.len() >= 2 && d[0] == 0xff && d[1] & 0xe0 == 0xe0 {
+        "mpeg-sync"
+    } else if at(0, b"%PDF") {
+        "pdf"
+    } else {
+        "none"
+    }
+}
+
+const VARIANTS: [&str; 16] = [
+    "jpg", "png", "gif87a", "gif89a", "tiff-le", "tiff-be", "bigtiff-le", "bigtiff-be", "jxl", "riff", "ftyp", "flac", "id3+flac", "id3",
+    "mpeg-sync", "pdf",
+];
+
+struct Asset {
+    name: String,
+    data: Vec<u8>,
+    /// synthesized to reach a particular rule alternative / code path: never dropped by the
+    /// per-container quota
+    forced: bool,
+    /// the format the harness itself produced the asset as (None for fixture files)
+    truth: Option<&'static str>,
+}
+
 pub fn run(run: &mut Run, rng: &mut Rng) {
-    run.rule = "leading bytes from a magic-prefix grammar (exact / truncated / one-bit-flipped / ID3 with crafted sync-safe sizes) × hints from every key of the running CONTAINER_MAP with case/whitespace variation; non-trivial = detection succeeds and the hint's family differs from it or is unknown; end-to-end: every fixture asset whose container is detected × every format string as hint, reports compared".to_string();
+    run.rule = "leading bytes from a magic-prefix grammar (exact / truncated / one-bit-flipped / two signatures at once / ID3 with crafted sync-safe sizes) × hints from every key of the running CONTAINER_MAP with case/whitespace variation; the same through streams with scripted short reads / Interrupted / read and seek errors; non-trivial = detection succeeds and the hint's family differs from it or is unknown, or an I/O script that changes the outcome; end-to-end: signed, update-manifest, truncated, bit-flipped and unsigned assets of every sniffing-rule alternative × format strings as hint (sync and async entry points), full report or error class compared; undetected streams × hints compared with the hint's own family".to_string();
     let map = hook::container_map();
     let formats: Vec<String> = map.iter().map(|(k, _)| k.clone()).collect();
     let pdf = hook::pdf_enabled();
     run.notes.push(format!("CONTAINER_MAP entries: {} pdf={}", map.len(), pdf));
 
+    // ---- handler selected for reading: every registered string with variants + unknown ones ----
+    let join = |t: Option<Vec<String>>| t.map(|v| v.join(",")).unwrap_or_else(|| "-".to_string());
+    let mut reader_inputs: Vec<String> = vec![];
+    for f in &formats {
+        reader_inputs.push(f.clone());
+        reader_inputs.push(f.to_uppercase());
+        reader_inputs.push(format!(" {f}\t"));
+        reader_inputs.push(format!("\n{}\r\n", f.to_uppercase()));
+    }
+    for u in ["", " ", "xyz", "image/unknown", "jp g", "jpg,jpeg", "image/jpeg;q=1"] {
+        reader_inputs.push(u.to_string());
+    }
+    let mut writer_asym: BTreeSet<String> = BTreeSet::new();
+    for f in &reader_inputs {
+        let imp = join(hook::handler_types(f));
+        let idx = run.case(format!("C11 reader f={}", hex(f.as_bytes())), imp.clone());
+        run.count(if imp == "-" { "reader_unknown" } else { "reader_known" });
+        // observation (not an oracle clause): during validation the format string is also looked
+        // up in CAI_WRITERS (object_locations_from_stream); that lookup need not be uniform
+        // inside a family. Any report difference it causes is caught by the end-to-end sweep.
+        if let Some(c) = hook::container_from_format(f) {
+            if hook::writer_present(f) != hook::writer_present(c) && writer_asym.insert(f.trim().to_lowercase()) {
+                run.count("observation_writer_lookup_differs_within_family");
+            }
+        }
+        // oracle: a string of family c selects the same handler as c itself
+        if let Some(c) = hook::container_from_format(f) {
+            let want = join(hook::handler_types(c));
+            if imp != want || imp == "-" {
+                run.fail(idx, "family-member-selects-other-handler", format!("format {f:?} is in family {c} but selects handler [{imp}], {c} selects [{want}]"));
+            }
+        } else if imp != "-" {
+            run.fail(idx, "handler-without-family", format!("format {f:?} has no container id but selects handler [{imp}]"));
+        }
+    }
+
+    if !writer_asym.is_empty() {
+        run.notes.push(format!(
+            "observation: get_caiwriter_handler (used by object_locations_from_stream during validation) finds no handler for {writer_asym:?} although their container id has one; only matters for re-basing data-hash exclusions under an update manifest (see the update:* assets in the end-to-end sweep)"
+        ));
+    }
+
+    // ---- detection / reconciliation on in-memory streams ----
     let n = if run.thorough() { 200_000 } else { 20_000 };
     for _ in 0..n {
         let mut r = rng.fork();
@@ -188,12 +478,16 @@ pub fn run(run: &mut Run, rng: &mut Rng) {
             }
         }
         let idx = run.case(req, imp);
-        // oracle: when bytes identify a container the resolved format is in that family,
-        // whatever the hint; otherwise the hint is used unchanged.
+        // oracle: when bytes identify a container the resolved format is in that family and
+        // selects that family's handler, whatever the hint; otherwise the hint is used unchanged.
         match detected {
             Some(d) => {
                 if hook::container_from_format(&resolved) != Some(d) {
                     run.fail(idx, "hint-overrides-detection", format!("detected {d} but resolved format {resolved:?} is in family {:?}", hook::container_from_format(&resolved)));
+                }
+                let (hr, hd) = (hook::handler_types(&resolved), hook::handler_types(d));
+                if hr.is_none() || hr != hd {
+                    run.fail(idx, "hint-changes-handler", format!("detected {d}: hint {hint:?} resolves to {resolved:?} which selects handler {hr:?}, {d} selects {hd:?}"));
                 }
             }
             None => {
@@ -204,92 +498,334 @@ pub fn run(run: &mut Run, rng: &mut Rng) {
         }
     }
 
-    // End-to-end: signed fixtures × hints.
+    // ---- the same through streams with scripted reads / seeks ----
+    let n_io = if run.thorough() { 100_000 } else { 10_000 };
+    for _ in 0..n_io {
+        let mut r = rng.fork();
+        let data = gen_data(&mut r);
+        let hint = gen_hint(&mut r, &formats);
+        let script = gen_script(&mut r);
+        let seek_fail = if r.chance(1, 8) { Some(r.below(5) as usize) } else { None };
+        let detected = hook::container_from_stream(&mut ScriptStream::new(&data, &script, seek_fail));
+        let resolved = hook::format_from_stream(&hint, &mut ScriptStream::new(&data, &script, seek_fail));
+        let req = format!(
+            "C11 detectio pdf={} hint={} data={} script={} seekfail={}",
+            pdf as u8,
+            hex(hint.as_bytes()),
+            hex(&data),
+            script_text(&script),
+            seek_fail.map(|k| k.to_string()).unwrap_or_else(|| "-".to_string())
+        );
+        let imp = format!("{} {}", detected.unwrap_or("-"), hex(resolved.as_bytes()));
+        let plain = hook::container_from_stream(&mut Cursor::new(data.clone()));
+        let benign = seek_fail.is_none() && !script.iter().any(|e| matches!(e, Ev::Fail | Ev::Chunk(0)));
+        run.count(if benign { "io_benign" } else { "io_faulty" });
+        if plain != detected {
+            run.count("io_outcome_changed_by_fault");
+            run.nontrivial(req.clone());
+        } else if benign && !script.is_empty() && plain.is_some() {
+            run.nontrivial(req.clone());
+        }
+        let idx = run.case(req, imp);
+        // oracle: short reads and Interrupted never change what is detected; with any fault the
+        // result is still "detected family or the hint unchanged"
+        if benign && detected != plain {
+            run.fail(idx, "short-read-changes-detection", format!("script {} : detected {detected:?}, whole-buffer read detects {plain:?}", script_text(&script)));
+        }
+        match detected {
+            Some(d) => {
+                if hook::container_from_format(&resolved) != Some(d) {
+                    run.fail(idx, "hint-overrides-detection", format!("(scripted stream) detected {d} but resolved {resolved:?}"));
+                }
+            }
+            None => {
+                if resolved != hint {
+                    run.fail(idx, "hint-not-used", format!("(scripted stream) nothing detected but resolved {resolved:?} != hint {hint:?}"));
+                }
+            }
+        }
+    }
+
+    // ---- End-to-end: assets × hints ----
     let dir = fixtures();
     let mut files: Vec<std::path::PathBuf> = std::fs::read_dir(&dir)
         .map(|d| d.filter_map(|e| e.ok()).map(|e| e.path()).filter(|p| p.is_file()).collect())
         .unwrap_or_default();
     files.sort();
     let max_size = if run.thorough() { 5_000_000 } else { 3_000_000 };
-    // assets: fixtures that already carry a manifest + one freshly signed asset per writable family
-    let mut assets: Vec<(String, Vec<u8>)> = vec![];
+    let mut assets: Vec<Asset> = vec![];
+    let mut undetected: Vec<Asset> = vec![];
+    let mut signed_by_fmt: BTreeMap<&'static str, Vec<u8>> = BTreeMap::new();
+    let sign_into = |run: &mut Run, assets: &mut Vec<Asset>, name: String, fmt: &'static str, src: &[u8], forced: bool| -> Option<Vec<u8>> {
+        match guarded(|| vh::sign::sign_asset(fmt, src, None)) {
+            Ok(Ok(signed)) => {
+                assets.push(Asset { name, data: signed.clone(), forced, truth: Some(fmt) });
+                Some(signed)
+            }
+            Ok(Err(e)) => {
+                run.notes.push(format!("could not sign {name}: {e:?}"));
+                None
+            }
+            Err(p) => {
+                run.notes.push(format!("panic signing {name}: {p}"));
+                None
+            }
+        }
+    };
+    // one freshly signed asset per writable family
     for (fmt, name) in vh::sign::unsigned_sources() {
         if let Ok(src) = std::fs::read(dir.join(name)) {
-            if src.len() > max_size { continue; }
-            match guarded(|| vh::sign::sign_asset(fmt, &src, None)) {
-                Ok(Ok(signed)) => assets.push((format!("signed:{name}"), signed)),
-                Ok(Err(e)) => run.notes.push(format!("could not sign {name}: {e:?}")),
-                Err(p) => run.notes.push(format!("panic signing {name}: {p}")),
+            if src.len() > max_size {
+                continue;
+            }
+            if let Some(s) = sign_into(run, &mut assets, format!("signed:{name}"), fmt, &src, false) {
+                signed_by_fmt.insert(fmt, s);
+            }
+        }
+    }
+    // every TIFF magic: classic / BigTIFF × little / big endian — signed when the handler can, and
+    // always also unsigned (error results must not depend on the hint either)
+    for (be, big) in [(false, false), (true, false), (false, true), (true, true)] {
+        let src = tiny_tiff(be, big);
+        let name = format!("tiny-{}tiff-{}", if big { "big" } else { "" }, if be { "be" } else { "le" });
+        sign_into(run, &mut assets, format!("signed:{name}"), "image/tiff", &src, true);
+        assets.push(Asset { name: format!("unsigned:{name}"), data: src, forced: true, truth: Some("image/tiff") });
+    }
+    // other rule alternatives that no signed asset starts with
+    if let Some(g) = signed_by_fmt.get("image/gif") {
+        let mut g87 = g.clone();
+        if g87.len() > 6 && &g87[0..6] == b"GIF89a" {
+            g87[4] = b'7';
+            assets.push(Asset { name: "signed-gif-as-87a".to_string(), data: g87, forced: true, truth: Some("image/gif") });
+        }
+    }
+    if let Ok(m) = std::fs::read(dir.join("sample1.mp3")) {
+        // strip a leading ID3 tag: the stream then starts with the MPEG frame sync
+        if m.len() > 10 && &m[0..3] == b"ID3" {
+            let sz = ((m[6] as usize & 0x7f) << 21) | ((m[7] as usize & 0x7f) << 14) | ((m[8] as usize & 0x7f) << 7) | (m[9] as usize & 0x7f);
+            if m.len() > 10 + sz + 2 {
+                assets.push(Asset { name: "mp3-without-id3".to_string(), data: m[10 + sz..].to_vec(), forced: true, truth: Some("audio/mpeg") });
+            }
+        }
+    }
+    if let Ok(f) = std::fs::read(dir.join("sample1.flac")) {
+        assets.push(Asset { name: "unsigned:sample1.flac".to_string(), data: f, forced: true, truth: Some("audio/flac") });
+    }
+    if pdf {
+        for name in ["basic-signed.pdf", "express-signed.pdf", "basic.pdf"] {
+            if let Ok(p) = std::fs::read(dir.join(name)) {
+                if p.len() <= max_size {
+                    assets.push(Asset { name: name.to_string(), data: p, forced: true, truth: Some("application/pdf") });
+                    break;
+                }
+            }
+        }
+    }
+    // update manifests on top of signed assets (validation then also uses the format string to
+    // locate the manifest store in the asset)
+    for fmt in ["image/jpeg", "image/png", "image/tiff", "audio/wav", "video/mp4"] {
+        if !run.thorough() && !matches!(fmt, "image/jpeg" | "image/tiff") {
+            continue;
+        }
+        if let Some(s) = signed_by_fmt.get(fmt) {
+            match guarded(|| add_update(fmt, s)) {
+                Ok(Ok(u)) => assets.push(Asset { name: format!("update:{fmt}"), data: u, forced: true, truth: Some(fmt) }),
+                Ok(Err(e)) => run.notes.push(format!("could not add an update manifest to {fmt}: {e:?}")),
+                Err(p) => run.notes.push(format!("panic adding an update manifest to {fmt}: {p}")),
+            }
+        }
+    }
+    // damaged signed assets: truncated / one content bit flipped (sniffing prefix kept)
+    {
+        let keys: Vec<&'static str> = signed_by_fmt.keys().copied().collect();
+        let n_damaged = if run.thorough() { 24 } else { 6 };
+        for i in 0..n_damaged {
+            let fmt = keys[i % keys.len().max(1)];
+            let s = &signed_by_fmt[fmt];
+            if s.len() < 64 {
+                continue;
+            }
+            let mut d = s.clone();
+            if rng.chance(1, 2) {
+                let cut = rng.range(16, d.len() as u64 - 1) as usize;
+                d.truncate(cut);
+                assets.push(Asset { name: format!("truncated@{cut}:{fmt}"), data: d, forced: true, truth: Some(fmt) });
+            } else {
+                let pos = rng.range(16, d.len() as u64 - 1) as usize;
+                d[pos] ^= 1 << rng.below(8);
+                assets.push(Asset { name: format!("bitflip@{pos}:{fmt}"), data: d, forced: true, truth: Some(fmt) });
             }
         }
     }
     for f in files {
         if let Ok(d) = std::fs::read(&f) {
-            assets.push((f.file_name().unwrap().to_string_lossy().to_string(), d));
+            assets.push(Asset { name: f.file_name().unwrap().to_string_lossy().to_string(), data: d, forced: false, truth: None });
         }
     }
-    let mut seen_containers: std::collections::BTreeMap<String, u32> = Default::default();
-    let per_container = if run.thorough() { 6 } else { 2 };
+
+    // hint sets
+    let fam_rep: Vec<String> = {
+        let mut hs = vec![];
+        let mut fams = BTreeSet::new();
+        for (k, v) in &map {
+            if fams.insert(v.clone()) {
+                hs.push(k.clone());
+            }
+        }
+        hs
+    };
+    let same_family = |d: &str| -> Vec<String> { map.iter().filter(|(_, v)| v == d).map(|(k, _)| k.clone()).collect() };
+
+    let mut seen_containers: BTreeMap<String, u32> = Default::default();
+    let mut seen_variants: BTreeSet<&'static str> = BTreeSet::new();
+    let per_container = if run.thorough() { 6 } else { 3 };
     let mut e2e = 0u64;
-    for (name, data) in assets {
-        if data.len() > max_size {
+    let mut baselines_err = 0u64;
+    let mut asset_log: Vec<String> = vec![];
+    for a in assets {
+        if a.data.len() > max_size {
             continue;
         }
-        let detected = match hook::container_from_stream(&mut Cursor::new(data.clone())) {
+        let detected = match hook::container_from_stream(&mut Cursor::new(a.data.clone())) {
             Some(d) => d,
-            None => continue,
-        };
-        let cnt = seen_containers.entry(detected.to_string()).or_insert(0);
-        if *cnt >= per_container {
-            continue;
-        }
-        let baseline = report_of(detected, &data);
-        if !baseline.starts_with("ok:") {
-            continue; // only assets that carry a readable manifest are informative
-        }
-        *cnt += 1;
-        let hints: Vec<String> = if run.thorough() {
-            formats.clone()
-        } else {
-            // one representative per family + a few random
-            let mut hs: Vec<String> = vec![];
-            let mut fams = std::collections::BTreeSet::new();
-            for (k, v) in &map {
-                if fams.insert(v.clone()) {
-                    hs.push(k.clone());
+            None => {
+                // An asset the harness produced itself as format F and whose leading bytes carry a
+                // well-known signature (judged by the harness' own table `magic_variant`, not by
+                // the code under test) must still read like F under every hint.
+                match (a.truth, magic_variant(&a.data)) {
+                    (Some(t), v) if v != "none" => match hook::container_from_format(t) {
+                        Some(c) => {
+                            run.count("e2e_known_signature_not_sniffed");
+                            c
+                        }
+                        None => {
+                            undetected.push(a);
+                            continue;
+                        }
+                    },
+                    _ => {
+                        undetected.push(a);
+                        continue;
+                    }
                 }
             }
-            for _ in 0..4 {
-                hs.push(rng.pick(&formats).clone());
+        };
+        let cnt = seen_containers.entry(detected.to_string()).or_insert(0);
+        if !a.forced {
+            if *cnt >= per_container {
+                continue;
             }
+            *cnt += 1;
+        }
+        let (name, data) = (a.name, a.data);
+        let baseline = report_of(detected, &data);
+        let is_ok = baseline.starts_with("ok:");
+        if !is_ok {
+            // error results are compared by class: they must not depend on the hint either
+            baselines_err += 1;
+            if !a.forced && !run.thorough() {
+                // quick tier: unsigned fixtures are represented by the forced ones
+                *seen_containers.get_mut(detected).unwrap() -= 1;
+                continue;
+            }
+        }
+        seen_variants.insert(magic_variant(&data));
+        run.count(&format!("e2e_asset_{}", if is_ok { "report" } else { "error" }));
+        // every registered format string (strings of the detected family are kept verbatim by the
+        // reconciliation, so they are what the rest of the reader sees) + unknown + case /
+        // white-space variants
+        let hints: Vec<String> = {
+            let mut hs = formats.clone();
             hs.push("application/unknown".to_string());
-            hs.push(" IMAGE/JPEG ".to_string());
+            hs.push("".to_string());
+            hs.push(format!(" {}\n", same_family(detected).last().cloned().unwrap_or_default().to_uppercase()));
+            for _ in 0..(if run.thorough() { 12 } else { 4 }) {
+                let b = rng.pick(&formats).clone();
+                hs.push(vary(rng, b));
+            }
+            hs.sort();
+            hs.dedup();
             hs
         };
-        for h in hints {
-            let rep = report_of(&h, &data);
+        asset_log.push(format!("{name}[{}]={}", magic_variant(&data), &baseline[..baseline.find(':').map(|i| (i + 8).min(baseline.len())).unwrap_or(baseline.len()).min(24)]));
+        for (hi, h) in hints.iter().enumerate() {
+            let rep = report_of(h, &data);
             e2e += 1;
             let same = rep == baseline;
             run.count(if same { "e2e_same" } else { "e2e_diff" });
             if !same {
                 let idx = run.reqs.len().saturating_sub(1);
-                run.fail(idx, "report-depends-on-hint", format!("fixture {name} (container {detected}) hint {h:?}: {} vs baseline {}", &rep[..rep.len().min(160)], &baseline[..baseline.len().min(160)]));
+                run.fail(idx, "report-depends-on-hint", format!("asset {name} (container {detected}) hint {h:?}: {} vs baseline {}", &rep[..rep.len().min(160)], &baseline[..baseline.len().min(160)]));
             } else {
                 run.nontrivial(format!("e2e {name} {h}"));
             }
             // the async entry point must reconcile the hint in the same way
-            let rep_a = report_of_async(&h, &data);
-            e2e += 1;
-            let same_a = rep_a == baseline;
-            run.count(if same_a { "e2e_async_same" } else { "e2e_async_diff" });
-            if !same_a {
-                let idx = run.reqs.len().saturating_sub(1);
-                run.fail(idx, "report-depends-on-hint", format!("fixture {name} (container {detected}) hint {h:?} through with_stream_async: {} vs baseline {}", &rep_a[..rep_a.len().min(160)], &baseline[..baseline.len().min(160)]));
-            } else {
-                run.nontrivial(format!("e2e-async {name} {h}"));
+            // (quick tier: async for every second hint, alternating with the asset)
+            if run.thorough() || (hi + asset_log.len()) % 2 == 0 {
+                let rep_a = report_of_async(h, &data);
+                e2e += 1;
+                let same_a = rep_a == baseline;
+                run.count(if same_a { "e2e_async_same" } else { "e2e_async_diff" });
+                if !same_a {
+                    let idx = run.reqs.len().saturating_sub(1);
+                    run.fail(idx, "report-depends-on-hint", format!("asset {name} (container {detected}) hint {h:?} through with_stream_async: {} vs baseline {}", &rep_a[..rep_a.len().min(160)], &baseline[..baseline.len().min(160)]));
+                } else {
+                    run.nontrivial(format!("e2e-async {name} {h}"));
+                }
             }
         }
     }
-    run.notes.push(format!("end-to-end reads: {e2e}; fixtures per container: {seen_containers:?}"));
+
+    // ---- End-to-end: streams whose bytes identify no container — only here the hint matters ----
+    undetected.push(Asset { name: "text".to_string(), data: b"plain text, no container at all\n".to_vec(), forced: true, truth: None });
+    undetected.push(Asset { name: "one-byte".to_string(), data: vec![0xff], forced: true, truth: None });
+    undetected.push(Asset { name: "empty".to_string(), data: vec![], forced: true, truth: None });
+    let mut hint_mattered = 0u64;
+    let mut und_seen = 0;
+    for a in undetected {
+        if a.data.len() > max_size || (!a.forced && und_seen >= if run.thorough() { 12 } else { 4 }) {
+            continue;
+        }
+        und_seen += 1;
+        run.count("e2e_undetected_asset");
+        let mut hs: Vec<String> = if run.thorough() { formats.clone() } else { fam_rep.clone() };
+        for k in ["svg", "image/svg+xml", "c2pa", "application/c2pa", " SVG ", "application/unknown", ""] {
+            hs.push(k.to_string());
+        }
+        hs.sort();
+        hs.dedup();
+        let mut results = BTreeSet::new();
+        for h in hs {
+            let rep = report_of(&h, &a.data);
+            e2e += 1;
+            // the hint is what is used: unknown string -> unsupported; known string -> exactly
+            // what its own family's canonical id gives
+            let want = match hook::container_from_format(&h) {
+                None => "err:UnsupportedType".to_string(),
+                Some(c) => report_of(c, &a.data),
+            };
+            run.count(if rep == want { "e2e_undetected_same" } else { "e2e_undetected_diff" });
+            if rep != want {
+                let idx = run.reqs.len().saturating_sub(1);
+                run.fail(idx, "undetected-hint-not-used", format!("asset {} (no container detected) hint {h:?}: {} but the hint's family gives {}", a.name, &rep[..rep.len().min(160)], &want[..want.len().min(160)]));
+            }
+            results.insert(rep[..rep.len().min(40)].to_string());
+        }
+        if results.len() > 1 {
+            hint_mattered += 1;
+            run.nontrivial(format!("e2e-undetected {} hint matters", a.name));
+        }
+    }
+
+    run.notes.push(format!(
+        "end-to-end reads: {e2e}; assets per container (quota-counted): {seen_containers:?}; assets with an error baseline: {baselines_err}; rule alternatives read end-to-end: {seen_variants:?}; undetected assets on which the hint changed the result: {hint_mattered}"
+    ));
     run.obligations.insert("e2e:report-independent-of-hint".to_string(), !run.oracle.iter().any(|o| o.class == "report-depends-on-hint"));
+    run.notes.push(format!("end-to-end assets [rule alternative] = baseline: {}", asset_log.join("; ")));
+    let missing: Vec<&str> = VARIANTS.iter().copied().filter(|v| !seen_variants.contains(v) && (*v != "pdf" || pdf)).collect();
+    if !missing.is_empty() {
+        run.notes.push(format!("rule alternatives with no end-to-end asset: {missing:?}"));
+    }
+    run.obligations.insert("e2e:every-sniffing-rule-alternative-read".to_string(), missing.is_empty());
+    run.obligations.insert("e2e:hint-matters-on-some-undetected-stream".to_string(), hint_mattered > 0);
 }
